@@ -297,12 +297,11 @@ namespace foonathan
             {
                 if (ptr_)
                 {
+                    // note: read the size before the destructor ends the lifetime of the joint stack
+                    auto size = sizeof(element_type)
+                                + detail::get_stack(*ptr_).capacity(detail::get_memory(*ptr_));
                     (**this).~element_type();
-                    this->deallocate_node(ptr_,
-                                          sizeof(element_type)
-                                              + detail::get_stack(*ptr_).capacity(
-                                                  detail::get_memory(*ptr_)),
-                                          alignof(element_type));
+                    this->deallocate_node(ptr_, size, alignof(element_type));
                     ptr_ = nullptr;
                 }
             }
